@@ -3,14 +3,14 @@ SPEC = dict(
     prop="C02",
     proof_module="SimbodyProofs.C02",
     sources=["SimbodyModel/Proto.lean", "SimbodyModel/TreeDyn.lean", "SimbodyModel/TreeDynIO.lean", "SimbodyModel/C02.lean",
-             "SimbodyProofs/TreeDynAbs.lean", "SimbodyProofs/TreeDynRefine.lean",
+             "SimbodyProofs/TreeDynAbs.lean", "SimbodyProofs/TreeDynRefine.lean", "SimbodyProofs/TreeDynSim.lean", "SimbodyProofs/TreeDynSimAbi.lean", "SimbodyProofs/TreeDynSimFwd.lean", 
              "SimbodyProofs/C02.lean", "Drivers/C02.lean"],
     n=dict(quick=300, thorough=20000),
     rtol=1e-9, atol=1e-12,
     rule="random trees from VERIF_SEED (1-12 bodies, thorough: 1/5 of the cases up to 40; chain/star/random/bushy; 17 mobilizer "
          "types x forward/reversed x {identity,translation,general}^2 frames x quaternion/Euler; mass properties from point clouds); "
          "distinct = distinct exported tree records",
-    partial='the theorems are stated about the abstract Matrix twin TreeDynAbs.MBT; the executed list/rose-tree recursions of SimbodyModel/TreeDyn.lean are tied to it by refinement lemmas per 6-D operation (TreeDynRefine) and by the simulation theorems listed in notes (TreeDynSim), not by a complete end-to-end equivalence: packing of the u-vector (slice/scatter), building the tree from the parent array and the Gauss-Jordan inverse are carried by the correspondence and the per-case wf check only',
+    partial='the property theorems are stated on the abstract Matrix twin TreeDynAbs.MBT; the executed rose-tree/list recursions of SimbodyModel/TreeDyn.lean are tied to it by NODE-LEVEL simulation theorems (TreeDynSim*.lean: for every executed subtree and incoming parent acceleration the value the executed pass stores at the node equals the twin quantity on the abstracted tree: multiplyByM, articulated body inertias P/P+/G incl. the explicit symmetrisation, multiplyByMInv, forward dynamics, inverse dynamics, J^T, reactions; free mobilizers only) plus refinement lemmas per 6-D operation. NOT proved: packing of the per-node blocks into the u-vector (slice/scatter, disjoint u0 ranges), construction of the tree from the flat parent array, that the Gauss-Jordan ginv inverts D (WF is a hypothesis of the ABI-dependent simulations, validated per case by O wf), hence no end-to-end array identity such as multiplyByM(multiplyByMInv f) = f for the executed functions; those links are carried by the correspondence',
     assumptions=[
         "exported-H mode: H columns (getHCol), Mk_G (getBodySpatialInertiaInGround), body origins and the velocity-dependent "
         "bias terms a = getMobilizerCoriolisAcceleration, b = getGyroscopicForce are taken from the implementation; their "
